@@ -12,7 +12,7 @@ def main():
     tier = "thorough" if "--thorough" in sys.argv else "quick"
     files = [a for a in sys.argv[1:] if not a.startswith("--")]
     for f in files:
-        m = json.load(open(f))
+        m = json.loads(open(f).read(), strict=False)
         d = tempfile.mkdtemp(prefix="mut-", dir="/tmp")
         try:
             sh(f"rsync -a --exclude .git /repo/ {d}/")
